@@ -194,6 +194,13 @@ func Start(ds DataSource, queuedRequests chan func(), Npresamp int, Nsamples int
 // This will be a long-running goroutine, as long as a source is active.
 func CoreLoop(ds DataSource, queuedRequests chan func()) {
 	defer ds.RunDoneDeactivate()
+	// However the loop ends (Stop, or the source ending by itself on an error), close the output
+	// files first: nobody else will, once the source is Inactive.
+	defer func() {
+		if ds.WritingIsActive() {
+			ds.WriteControl(&WriteControlConfig{Request: "STOP"})
+		}
+	}()
 	verifPoint("loop.start")
 	nextBlock := ds.getNextBlock()
 
